@@ -164,7 +164,7 @@ fn counting_case(ctx: &Ctx, rep: &mut Report, case: u64, g: &mut Sm64) {
     let pool_threads = *g.choose(&[0usize, 0, 1, 2, 3]);
     rep.count(&format!("called_inside_rayon_pool_of[{pool_threads}]"));
     // chains of this workload report or finish within a few polling intervals: 80 idle polls = a stuck run
-    hook::proto_idle_limit(80);
+    hook::proto_idle_limit(240);
     let r = guard(|| {
         if pool_threads == 0 {
             s.run_progress(n_collect, n_discard).map_err(|e| format!("{e}"))
@@ -282,7 +282,7 @@ fn mh_gibbs_case(ctx: &Ctx, rep: &mut Report, case: u64, g: &mut Sm64) {
                     let _ = b.run(warm, 1).unwrap();
                 }
                 let plain = a.run(n_collect, n_discard).unwrap();
-                hook::proto_idle_limit(80);
+                hook::proto_idle_limit(240);
                 let (prog, stats) = if seed % 5 < 2 {
                     let pool = rayon::ThreadPoolBuilder::new().num_threads(1 + (seed % 2) as usize).build().unwrap();
                     pool.install(|| b.run_progress(n_collect, n_discard).map_err(|e| format!("{e}")).unwrap())
@@ -379,7 +379,7 @@ where
                 let _ = b.run(warm + 1, 3);
             }
             let plain = t3(&a.run(n_collect + 1, n_discard));
-            hook::proto_idle_limit(80);
+            hook::proto_idle_limit(240);
             let (prog, stats) = if seed % 5 < 2 {
                 // called from inside a rayon pool with fewer threads than chains
                 let pool = rayon::ThreadPoolBuilder::new().num_threads(1 + (seed % 2) as usize).build().unwrap();
